@@ -44,6 +44,7 @@ type TxSpec struct {
 	Data  string `json:"data,omitempty"`  // hex
 	Value uint64 `json:"value,omitempty"` // wei
 	Nonce *int64 `json:"nonce,omitempty"` // nil: the account's next nonce in this child
+	Note  string `json:"note,omitempty"`  // what the transaction exercises (evm operand family: OPCODE(operands))
 }
 
 type Probe struct {
